@@ -2,6 +2,9 @@
    topological_sort: Kahn with a Vec used as a STACK) with the adapters _scc_edges_rust / _topo_edges_rust of
    solvor/rust/adapters.py.  Definitions only.
 
+   (Since /repo 50224e7 the Rust Tarjan is ITERATIVE with explicit frames - it visits the nodes in the same order and pushes the same
+   components as the recursive kernel transliterated below, so this fuel-based recursive model describes the same function; the
+   correspondence with backend='rust' is re-checked on every run.)
    Vec<Option<usize>> indices -> list (option nat); Vec<usize> lowlinks / in_degree -> list nat;
    Vec<bool> on_stack -> list bool; stack: head = top.  Recursion of `strongconnect` -> fuel (depth). *)
 From Coq Require Import List Arith ZArith Bool.
